@@ -26,6 +26,14 @@ def natToBits : Nat → Nat → List Bool
   | 0, _ => []
   | k + 1, n => (n % 2 == 1) :: natToBits k (n / 2)
 
+/-- `mapM` in `Option`, structurally recursive (so that proofs are plain list induction) -/
+def mapOpt {α β : Type} (f : α → Option β) : List α → Option (List β)
+  | [] => some []
+  | a :: as =>
+    match f a, mapOpt f as with
+    | some b, some bs => some (b :: bs)
+    | _, _ => none
+
 /-- `ceil(log2 n)` for `n ≥ 1`, and 0 for `n ≤ 1`: the depth of a Merkle tree with `n` leaves. -/
 def ceilLog2 (n : Nat) : Nat := if n ≤ 1 then 0 else Nat.log2 (n - 1) + 1
 
